@@ -192,7 +192,9 @@ def write_evidence(ctx, violations, inconclusive, reported, err):
     nontrivial = 0
     for r in ctx.results:
         evaluations += r.get('paths', 0) + r.get('smt_queries', 0)
-        if r.get('leaves') is not None:
+        if r.get('nontrivial') is not None:
+            nontrivial += r['nontrivial']
+        elif r.get('leaves') is not None:
             nontrivial += sum(1 for l in r['leaves'] if getattr(l, 'nforks', 0) > 0)
         else:
             nontrivial += r.get('obligations', 0) + len(r.get('covered', []))
@@ -203,7 +205,7 @@ def write_evidence(ctx, violations, inconclusive, reported, err):
         covers += len(r.get('covered', []))
         scen.append({k: r[k] for k in ('scenario', 'mode', 'paths', 'events', 'obligations', 'covered', 'statuses',
                                        'queries', 'solver_s', 'explore_s', 'threads', 'verdict', 'flavor', 'rounds',
-                                       'smt_vars', 'smt_asserts')
+                                       'smt_vars', 'smt_asserts', 'max_context_switches_seen', 'worker_processes', 'traces_validated')
                      if k in r})
         if r.get('sample') is not None and len(samples) < 6:
             samples.append(r['sample'])
